@@ -158,7 +158,7 @@ Definition mstep22 (c : cfg) (m : mon22) (o : lop) (r : lout) : verdict * mon22 
                         (* the update's instant: old interval up to here, then the new transmit window *)
                         if negb (iv =? ivl * 1250) then (Bad 1, m)
                         else if search_k (p_a m) s e (woff * 1250) (wsz * 1250) (p_interval m) (N.to_nat (p_latency m + 1 + p_missed m))
-                        then (Ok, mk22 PBlind false (ivl * 1250) lat (tmo * 10000) (p_a m) (woff * 1250) (wsz * 1250) 0 0 [])
+                        then (Ok, mk22 PBlind false (ivl * 1250) lat (tmo * 10000) (p_a m) (woff * 1250) (wsz * 1250) 0 0 upd)
                         else (Bad 2, m)
                     | Some d, None =>
                         (* a change that is not a connection update (encryption): timing as usual *)
@@ -190,8 +190,8 @@ Definition mstep22 (c : cfg) (m : mon22) (o : lop) (r : lout) : verdict * mon22 
                   (* the instant of an update fell on a missed event: the new parameters apply, the window is not judged *)
                   match match changed_details it with Some d => applied_update (p_upd m) d | None => None end with
                   | Some (wsz, woff, ivl, lat, tmo) =>
-                      (Ok, mk22 PBlind false (ivl * 1250) lat (tmo * 10000) (p_a m) (woff * 1250) (wsz * 1250) 0 0 [])
-                  | None => (Ok, mk22 PBlind false (p_interval m) (p_latency m) (p_timeout m) (p_a m) 0 0 0 0 [])
+                      (Ok, mk22 PBlind false (ivl * 1250) lat (tmo * 10000) (p_a m) (woff * 1250) (wsz * 1250) 0 0 (p_upd m))
+                  | None => (Ok, mk22 PBlind false (p_interval m) (p_latency m) (p_timeout m) (p_a m) 0 0 0 0 (p_upd m))
                   end
                 else if lost then (Bad 4, m)
                 else
